@@ -1,4 +1,4 @@
-import NdnProofs.Lemmas.Lvs.CompileStatic
+import NdnProofs.Lemmas.Lvs.CompileTags
 import NdnProofs.Lemmas.Lvs.Example
 /-!
   Concrete schemas for the non-vacuity examples of the compiler theorems (C11, C13), evaluated by the kernel
@@ -53,6 +53,31 @@ theorem compile_schema : compile schema = .ok (model, ["x"]) := by decide +kerne
 
 theorem schema_wf : schema.WF := Schema.wf_of_all _ (by decide)
 
+/-- the chains of the schema (after numbering `x` = 1) -/
+def chains : List Chain := [
+  { id := "#k", name := [.lit cK, .pat 1], cons := [{ pat := [1], opts := [.lit cA, .lit cB] }], sign := [] },
+  { id := "#p", name := [.lit cD, .pat 1], cons := [], sign := ["#k"] } ]
+
+theorem chainsOf_schema : chainsOf schema = .ok (chains, ["x"]) := by decide +kernel
+
+theorem buildModel_chains : buildModel chains ["x"] = .ok model := by decide +kernel
+
+/-- the merge keys of these chains are distinct where the constraints differ -/
+theorem keyInj_chains : KeyInj chains := by
+  intro rc₁ h1 rc₂ h2 t₁ t₂ prev ht1 ht2 hk
+  simp only [chains, List.mem_cons, List.not_mem_nil, or_false] at h1 h2
+  rcases h1 with rfl | rfl <;> rcases h2 with rfl | rfl <;>
+  · have e1 : t₁ = 1 := by simpa [Chain.tags] using ht1
+    have e2 : t₂ = 1 := by simpa [Chain.tags] using ht2
+    subst e1; subst e2
+    refine ⟨rfl, ?_⟩
+    cases hp : prev.contains (1 : Int)
+    · first
+        | rfl
+        | (exfalso; simp only [pmove, hp] at hk; revert hk; decide)
+    · have hp' : (1 : Int) ∈ prev := by simpa using hp
+      simp [pmove, hp']
+
 /-- the same with `#k` signed by `#p`: a signing loop -/
 def schemaLoop : Schema := { rules := [
   { id := "#p", name := [.lit cD, .pat "x"], cons := [], sign := ["#k"] },
@@ -61,6 +86,9 @@ def schemaLoop : Schema := { rules := [
 theorem compile_schemaLoop : compile schemaLoop = .ok (signLoop, ["x"]) := by decide +kernel
 
 theorem schemaLoop_wf : schemaLoop.WF := Schema.wf_of_all _ (by decide)
+
+/-- `#p: "d"/x <= #nokey` -/
+def schemaBadSigner : Schema := { rules := [{ id := "#p", name := [.lit cD, .pat "x"], cons := [], sign := ["#nokey"] }] }
 
 /-- `#p: #nope/"d"` -/
 def schemaBadRef : Schema := { rules := [{ id := "#p", name := [.ref "#nope", .lit cD], cons := [], sign := [] }] }
